@@ -3503,16 +3503,29 @@ def assemble(path_or_source, *, constants=None, labels=None, compress=False, inc
 
     # run items through each pass
     items = resolve_constants(items, constants)
+    defined = {item.name for item in items if isinstance(item, Label)}
     items = resolve_labels(items, labels)
-    items = resolve_register_aliases(items, constants)
-    if compress:
-        items = transform_compressible(items, constants, labels)
-    items = transform_pseudo_instructions(items, constants, labels)
-    items = resolve_register_aliases(items, constants)
-    if compress:
-        items = transform_compressible(items, constants, labels)
-    items = resolve_aligns(items, labels)
-    items = resolve_immediates(items, constants, labels)
+
+    # entries of the caller's label table for names this program does not define are external,
+    # absolute addresses: they must not move along with the program's own labels, so while the
+    # layout settles they are looked up like constants (a real constant of that name still wins)
+    external = {name: value for name, value in labels.items() if name not in defined}
+    for name in external:
+        del labels[name]
+    absolutes = ChainMap(constants, external)
+
+    try:
+        items = resolve_register_aliases(items, constants)
+        if compress:
+            items = transform_compressible(items, absolutes, labels)
+        items = transform_pseudo_instructions(items, absolutes, labels)
+        items = resolve_register_aliases(items, constants)
+        if compress:
+            items = transform_compressible(items, absolutes, labels)
+        items = resolve_aligns(items, labels)
+        items = resolve_immediates(items, absolutes, labels)
+    finally:
+        labels.update(external)
     items = resolve_instructions(items)
     items = resolve_strings(items)
     items = resolve_sequences(items)
